@@ -3,10 +3,13 @@
     native OCaml types; Z, positive, N stay extracted inductives. No Extract Constant. *)
 From Coq Require Import ExtrOcamlBasic.
 From WT Require Import Base.Wrap Base.ListX Base.Bytes Model.Time Model.Ring Model.Update
-  Model.Codec Model.Handle Inst.FloatInst.
+  Model.Codec Model.Handle Model.Text Inst.FloatInst.
 Extraction "wtmodel.ml"
-  create sync reopen h_update h_update_many h_fetch h_dfetch h_raw series_times
+  create sync reopen h_update h_update_many h_fetch h_dfetch h_raw h_header series_times
   enc_ts enc_dur enc_val enc_point enc_points enc_series enc_ainfo enc_header
   dec_ts dec_dur dec_val dec_point dec_points_msg dec_series dec_ainfo dec_header
   new_header expected_file_size
+  parse_duration duration_string parse_timestamp timestamp_string parse_archive_info
+  parse_archive_info_list archive_list_string method_of_string method_string flag_method
+  fl_flag_xff
   flocq_fops.
